@@ -123,6 +123,27 @@ def check_recv(fn, payload, schedule, cut=None):
     return None
 
 
+def check_limits():
+    """a receiver's size limit is never exceeded: _recv_bytes(maxsize) hands out None (-> recv_bytes raises
+    "bad message length") for every message longer than maxsize, for every maxsize including 0"""
+    for maxsize in (0, 1, 4):
+        for ln in (0, 1, 2, 5, 9):
+            payload = bytes(range(65, 65 + ln))
+            s = Script([], struct.pack('!i', ln) + payload)
+            c = conn()
+            real = connection.Connection._recv
+            connection.Connection._recv = lambda self, size, read=None: real(self, size, s.read)
+            try:
+                r = c._recv_bytes(maxsize)
+            finally:
+                connection.Connection._recv = real
+            if ln > maxsize and r is not None:
+                return 'a message of %d bytes was handed out although the receiver allows at most %d' % (ln, maxsize)
+            if ln <= maxsize and (r is None or r.getvalue() != payload):
+                return 'a message of %d bytes (limit %d) was not delivered' % (ln, maxsize)
+    return None
+
+
 def search(fn):
     steps = [1, 2, 3, ('err', errno.EINTR)]
     for ln in range(0, 6):
@@ -156,6 +177,12 @@ def main():
     data = json.load(open(sys.argv[1]))
     fn = data['function'].rsplit('.', 1)[1]
     print('replay of %s / %s' % (data['function'], data['obligation']))
+    if fn == '_recv_bytes':
+        bad = check_limits()
+        if bad:
+            print('  violation on real code: %s' % bad)
+            print('REPRODUCED on real code')
+            sys.exit(1)
     if os.environ.get('PYVC_SEARCH'):
         found, bad = search(fn)
         if found:
